@@ -513,8 +513,7 @@ def roundtrip_oracle(d0, wline, reread, d1, lws, ptab):
                      + (": FSG_BEGIN line has no name" if noname else "")
                      + (f": probability printed as {refused[0][3]} in {' '.join(refused[0])}" if refused else ""))
         return probs, key
-    if d1 is None:
-        probs.append("no dump after reread")
+    if d1 is None:   # nothing observed after the read (e.g. a shrunk replay): only the write side was judged
         return probs, key
     if (d0["n"], d0["start"], d0["final"]) != (d1["n"], d1["start"], d1["final"]):
         probs.append(f"states/start/final {(d0['n'], d0['start'], d0['final'])} became {(d1['n'], d1['start'], d1['final'])}")
@@ -894,7 +893,7 @@ def check(c):
                   "clang ASan/UBSan as observer of memory errors and signed overflow in fsg_model.c",
                   "the iteration order of the C hash tables is not modelled: results are compared as multisets "
                   "(justified by C13_closure_unique: the closed grammar does not depend on the order)"]
-    c.assumptions += ["null-transition log-probabilities are <= 0 (the C code aborts with E_FATAL otherwise) and sums stay inside int32",
+    c.assumptions += ["null-transition log-probabilities are <= 0 (the C code aborts with E_FATAL otherwise) and every null-path weight stays above log-zero (-2^29 at shift 0): below it the pinned code overflows int32 (D51, found by C05) and the repaired code saturates, i.e. treats the path as probability zero; the model adds exactly",
                       "filler words and alternate->base relation are the dictionary's: a filler is a word whose base form starts with '<', '+' or '['; "
                       "the base of 'w(k)' is 'w' (dict_word2basestr)",
                       "probabilities inside float32's normal range (the reader converts through float32)",
